@@ -231,16 +231,22 @@ class SubprocessSpec(FrontEndSpec):
                 for opt in self.options:
                     n += 1
                     tag = '%s/%s' % (style, opt)
+                    via_env = bool(opt) and opt.startswith('env:')
+                    env_run = dict(env)
+                    if via_env:
+                        # the default options come from the documented environment variable, not from the command line
+                        env_run['XDOCTEST_OPTIONS'] = opt[4:]
+                        opt = opt[4:]
                     exp = {outcomes.fname(j) + ':0': outcomes.outcome(kd, opt) for j, kd in enumerate(kinds)}
                     exp_p = {k: ('skipped' if v == 'disabled' else v) for k, v in exp.items()}
                     exp_n = {k: v for k, v in exp.items() if v != 'disabled'}
                     anyfail = any(v == 'failed' for v in exp.values())
                     pa = [sys.executable, '-m', 'pytest', '--xdoctest', '--xdoctest-style=' + style, *harness.PYTEST_ISOLATION_ARGS,
-                          '-v', '--rootdir', d, '-c', '/dev/null', fname] + (['--xdoctest-options=' + opt] if opt else [])
+                          '-v', '--rootdir', d, '-c', '/dev/null', fname] + (['--xdoctest-options=' + opt] if (opt and not via_env) else [])
                     na = [sys.executable, '-m', 'xdoctest', fname, 'all', '--style=' + style, '--verbose=1', '--nocolor'] + (
-                        ['--options=' + opt] if opt else [])
-                    rp = subprocess.run(pa, cwd=d, env=env, capture_output=True, text=True, timeout=300)
-                    rn = subprocess.run(na, cwd=d, env=env, capture_output=True, text=True, timeout=300)
+                        ['--options=' + opt] if (opt and not via_env) else [])
+                    rp = subprocess.run(pa, cwd=d, env=env_run, capture_output=True, text=True, timeout=300)
+                    rn = subprocess.run(na, cwd=d, env=env_run, capture_output=True, text=True, timeout=300)
                     po = {m.group(2): {'PASSED': 'passed', 'FAILED': 'failed', 'SKIPPED': 'skipped', 'ERROR': 'error'}[m.group(3)]
                           for m in PYTEST_LINE_RE.finditer(rp.stdout)}
                     no = {}
